@@ -122,33 +122,51 @@ class _Hook:
 
 def interleaving_probe():
     import pypika_tortoise as P
-    from pypika_tortoise import terms as T
+    from pypika_tortoise import terms as T, functions as fn
     out = []
     entries = [("get_parameterized_sql()", lambda q: q.get_parameterized_sql()), ("str()", lambda q: str(q)), ("get_sql()", lambda q: q.get_sql()),
                ("get_parameterized_sql(ctx)", lambda q: q.get_parameterized_sql(q.QUERY_CLS.SQL_CONTEXT))]
+
+    def shapes(qc, hv):
+        t, u = P.Table("t"), P.Table("u")
+        sub = qc.from_(u).select(u.a, hv).where(u.b == 3)          # the suspension point inside a FROM / JOIN sub-query
+        return [lambda: qc.from_(t).select(t.a, T.ValueWrapper(5)).where(t.a == 1).where(t.b == hv).where(t.c == "x").limit(3),
+                lambda: qc.update(t).join(sub).on(t.a == sub.a).set(t.b, 2).where(t.c == "x"),
+                lambda: qc.update(t).from_(sub).set(t.b, hv).where(t.c == 4),
+                lambda: qc.update(t).from_(sub).join(u).on(t.a == u.a).set(t.b, u.b).where(t.c == 4),      # UPDATE .. FROM .. JOIN: the dialects' own get_sql
+                lambda: qc.from_(sub).join(u).on(sub.a == u.a).select(sub.a, 7).groupby(sub.a).having(fn.Count("*") > 1).orderby(sub.a).limit(2),
+                lambda: qc.into(t).columns("a", "b").insert(1, hv).insert(2, "y")]
+
     for qc in genobj.QUERY_CLASSES:
-        t = P.Table("t")
         for ename, entry in entries:
             for iname, inner in entries:
-                h = _Hook()
-                q = (qc.from_(t).select(t.a, T.ValueWrapper(5)).where(t.a == 1).where(t.b == T.ValueWrapper(h, allow_parametrize=False))
-                     .where(t.c == "x").limit(3))
-                other = qc.from_(t).select(t.z).where(t.z == 9)
-                try:
-                    base, base_inner, base_other = entry(q), inner(q), inner(other)
-                    for target, expect in ((q, base_inner), (other, base_other)):
-                        got = []
-                        h.fn = lambda target=target: got.append(inner(target))
-                        outer = entry(q)
-                        if repr(outer) != repr(base) or repr(got[0]) != repr(expect):
-                            out.append({"kind": "interleaving", "class": genobj.QNAMES[qc], "suspended_render": ename, "completed_render": iname,
-                                        "what": "a render that runs while another render is suspended changes a result (process-wide or per-object state)",
-                                        "suspended_alone": repr(base)[:300], "suspended_interleaved": repr(outer)[:300],
-                                        "completed_alone": repr(expect)[:300], "completed_interleaved": repr(got[0])[:300]})
-                            return out
-                except Exception as e:  # noqa
-                    out.append({"kind": "interleaving", "what": "probe raised %s: %s" % (type(e).__name__, str(e)[:200])})
-                    return out
+                for shape in range(6):
+                    h = _Hook()
+                    try:
+                        q = shapes(qc, T.ValueWrapper(h, allow_parametrize=False))[shape]()
+                        str(q)
+                    except Exception:
+                        continue
+                    t = P.Table("t")
+                    other = qc.from_(t).select(t.z).where(t.z == 9)
+                    try:
+                        base, base_inner, base_other = entry(q), inner(q), inner(other)
+                        for target, expect in ((q, base_inner), (other, base_other)):
+                            got = []
+                            h.fn = lambda target=target: got.append(inner(target))
+                            outer = entry(q)
+                            if not got:
+                                continue            # (the value is not rendered in this shape under this class)
+                            if repr(outer) != repr(base) or repr(got[0]) != repr(expect):
+                                out.append({"kind": "interleaving", "class": genobj.QNAMES[qc], "suspended_render": ename, "completed_render": iname,
+                                            "statement_shape": shape,
+                                            "what": "a render that runs while another render is suspended changes a result (process-wide or per-object state)",
+                                            "suspended_alone": repr(base)[:300], "suspended_interleaved": repr(outer)[:300],
+                                            "completed_alone": repr(expect)[:300], "completed_interleaved": repr(got[0])[:300]})
+                                return out
+                    except Exception as e:  # noqa
+                        out.append({"kind": "interleaving", "what": "probe raised %s: %s" % (type(e).__name__, str(e)[:200])})
+                        return out
     return out
 
 
